@@ -156,6 +156,32 @@ ArityProg(nm) ==
     [] nm = "nested-f2-1" -> ArityOne(<<ArityFn(2, TRUE), Decl("g2", <<"x">>, App(Var("f"), <<Var("x")>>)), Body(App(Var("g2"), <<Prim("num")>>))>>)
     [] nm = "nested-f2-2" -> ArityOne(<<ArityFn(2, TRUE), Decl("g2", <<"x">>, App(Var("f"), <<Var("x"), Var("x")>>)), Body(App(Var("g2"), <<Prim("num")>>))>>)
 
+\* ---- DynScope: a caller's binder named like a parameter of the callee ----------------------------
+\* g has parameters a, b (k has a, b, c); the caller is a function with parameter N or a rec with binder N, N in {a, b, z};
+\* the arguments mention N.  Lexically N is the caller's binder whatever the callee calls its parameters.
+DynNames == {"a", "b", "z"}
+DynCallee(imported) == <<Decl("g", <<"a", "b">>, Obj(<<Prop("first", Var("a")), Prop("second", Var("b"))>>)),
+                         Decl("k", <<"a", "b", "c">>, Obj(<<Prop("first", Var("a")), Prop("second", Var("b")), Prop("third", Var("c"))>>))>>
+DynArgs(nm, pat) ==
+  CASE pat = "cn"  -> <<Prim("num"), Var(nm)>>
+    [] pat = "nc"  -> <<Var(nm), Prim("num")>>
+    [] pat = "nn"  -> <<Var(nm), Var(nm)>>
+    [] pat = "cAn" -> <<Prim("num"), Arr(Var(nm))>>
+DynProg(nm, pat, site, imported) ==
+  LET gv == Var("g")  kv == Var("k")
+      main == CASE site = "fn"  -> <<Decl("f", <<nm>>, App(gv, DynArgs(nm, pat))), Body(App(Var("f"), <<Prim("str")>>))>>
+                [] site = "fn3" -> <<Decl("f", <<nm>>, App(kv, <<Prim("bool")>> \o DynArgs(nm, pat))), Body(App(Var("f"), <<Prim("str")>>))>>
+                [] site = "rec" -> <<Let("t", Rec(nm, Obj(<<Prop("self", App(gv, <<Prim("bool"), Arr(Var(nm))>>))>>))), Body(Var("t"))>>
+                [] site = "fnfn" -> <<Decl("h", <<"a">>, Obj(<<Prop("inner", Var("a"))>>)),
+                                      Decl("f", <<nm>>, App(gv, <<App(Var("h"), <<Prim("int")>>), App(Var("h"), <<Var(nm)>>)>>)),
+                                      Body(App(Var("f"), <<Prim("str")>>))>>
+  IN IF imported
+     THEN [main |-> "m1", mods |-> [m \in {"m1", "g"} |-> IF m = "g" THEN DynCallee(TRUE) ELSE <<Use("g")>> \o main]]
+     ELSE [main |-> "m1", mods |-> [m \in {"m1"} |-> DynCallee(FALSE) \o main]]
+DynScopeFamily ==
+  {DynProg(nm, pat, site, imp) : nm \in DynNames, pat \in {"cn", "nc", "nn", "cAn"}, site \in {"fn", "fn3"}, imp \in BOOLEAN}
+  \cup {DynProg(nm, "cn", site, imp) : nm \in DynNames, site \in {"rec", "fnfn"}, imp \in BOOLEAN}
+
 \* one program per (position, shape, indirection) of either family
 Member(pn, sn, ind) == IF pn = "arity" THEN ArityProg(sn) ELSE IF ind \in {"fnlocal", "fnimp"} THEN FnProg(pn, sn, ind) ELSE ProgOf(pn, sn, ind)
 ValidMember(pn, ind) == (ind \in {"fnlocal", "fnimp"}) <=> (pn \in AllFnPositions)
